@@ -9,7 +9,7 @@
    [ttl_of l i] are the key and TTL of record i.  Two records are in the same
    group iff their keys are equal; the key is normalizedString of the record
    text, characterised at the end of part A. *)
-From Dns Require Import Model.Dup Gen.Dups Gen.Layouts Proofs.EscapeProofs Proofs.DedupProofs Proofs.DupProofs.
+From Dns Require Import Model.Dup Gen.Dups Gen.Layouts Gen.Registry Proofs.EscapeProofs Proofs.DedupProofs Proofs.DupProofs Proofs.DupWireProofs.
 From Coq Require Import Sorted.
 Open Scope list_scope.
 Open Scope N_scope.
@@ -342,3 +342,148 @@ Example wire_names :
   let a := [[87; 87; 87]; [97]] in let b := [[119; 119; 119]; [65]] in
   valid_wire a = true /\ valid_wire b = true /\ name_eq_ci (show_name a) (show_name b) = true /\ a <> b.
 Proof. vm_compute. repeat split. discriminate. Qed.
+
+(* ---------------- Part B, continued: duplicates = all fields agree ---------------- *)
+(* [agree c v1 v2]: the field(s) comparison c looks at agree --
+     D_eq f, D_each_eq f   the values are equal (for lists: same length, same elements);
+     D_name f              the names are equal up to ASCII case (lower_bytes);
+     D_len_eq f            both absent or lists of the same kind and length (same_len);
+     D_each_name f         same_len and the lists of names are equal up to case, element-wise;
+     D_each_equals f       same_len and element-wise APLPrefix.equals (apl_agree: negation,
+                           prefix length, address length equal, address equal up to the 4/16-octet form);
+     D_ip_equal f          equal up to the 4/16-octet form (ip_norm);
+     D_pairs f             same_len and the key-sorted lists of (key, packed value) are equal;
+     D_gateway ..          gateway types equal, and the address (types 1,2: up to 4/16 form)
+                           or the host name (type 3: up to case) agree  (gw_agree);
+     D_const b             b = true. *)
+Theorem rdata_duplicate_iff_all_compared_fields_agree :
+  forall (cs : list dcmp) (v1 v2 : rdata),
+    cmps_wf cs = true -> typed_for cs v1 = true -> typed_for cs v2 = true ->
+    (dup_cmps cs v1 v2 = Ok true <-> forall c, In c cs -> agree c v1 v2).
+Proof. exact dup_cmps_true_iff. Qed.
+Print Assumptions rdata_duplicate_iff_all_compared_fields_agree.
+
+(* The comparison list of every type with a wire layout, OPT excepted, is exactly
+   the list derived from the pack statements of its layout ([expected_cmps]: a
+   domain name gives D_name, a list of names D_len_eq + D_each_name, TXT and
+   type bitmaps D_len_eq + D_each_eq, addresses D_ip_equal, SVCB parameters
+   D_len_eq + D_pairs, APL D_len_eq + D_each_equals, the IPSECKEY/AMTRELAY
+   gateway D_gateway, everything else D_eq), in order, followed by return true.
+   So no wire field is omitted, none is compared twice or with the wrong test.
+   Checked on the tables regenerated from zduplicate.go and zmsg.go at each run. *)
+Theorem comparison_lists_are_the_wire_layouts :
+  forallb (fun L => String.eqb (tl_name L) "OPT" ||
+                    match find_dup dups (tl_name L) with
+                    | Some cs => list_eqb dcmp_eqb cs (flat_map expected_cmps (tl_pack L) ++ [D_const true])
+                    | None => false end) layouts = true.
+Proof. exact dups_match_layouts. Qed.
+Print Assumptions comparison_lists_are_the_wire_layouts.
+
+(* [field_agree p v1 v2] for a pack statement p = (field, kind) of the layout:
+   names (K_name) equal up to case; lists of names (K_names) same_len and equal
+   up to case; K_a/K_aaaa equal up to the 4/16-octet form; K_svcb/K_opt equal
+   as key-sorted (key, packed value) lists; K_apl element-wise apl_agree; the
+   gateway as gw_agree; every other kind (integers, character-strings, TXT,
+   type bitmaps, hex/base64/base32 blobs ...) equal as values.
+   Hence: two records whose RDATA is typed for the type's comparison list (all
+   records from the wire are, see below) are duplicates EXACTLY when class, type,
+   Go type agree, the owners agree up to case and every field of the wire layout
+   agrees -- for every type with a layout other than OPT. *)
+Theorem is_duplicate_iff_header_and_every_wire_field_agree :
+  forall (r1 r2 : rr) (L : tlayout),
+    rr_kind r1 <> "OPT"%string -> find_layout layouts (rr_kind r1) = Some L ->
+    typed_for (layout_cmps L) (rr_data r1) = true -> typed_for (layout_cmps L) (rr_data r2) = true ->
+    (is_duplicate r1 r2 = Ok true <->
+     rr_class r1 = rr_class r2 /\ rr_type r1 = rr_type r2 /\ rr_kind r1 = rr_kind r2 /\
+     lower_bytes (rr_name r1) = lower_bytes (rr_name r2) /\
+     forall p, In p (tl_pack L) -> field_agree p (rr_data r1) (rr_data r2)).
+Proof. exact is_duplicate_iff_fields. Qed.
+Print Assumptions is_duplicate_iff_header_and_every_wire_field_agree.
+
+(* --- decoder output is typed --- *)
+(* table checks: each field a comparison looks at is assigned, by the unpack
+   statements of the same type, a value of a kind that comparison expects
+   ([assigned_classes]: which fval constructor each unpack statement stores,
+   proved for unpack_field in DupWireProofs.unpack_field_classes); and every Go
+   type UnpackRR can produce has a comparison list, only OPT's ending in
+   return false *)
+Theorem unpacked_field_kinds_fit_the_comparisons :
+  forallb (fun L => match find_dup dups (tl_name L) with
+                    | Some cs => forallb (fun c => forallb (fun gc => class_ok c (fst gc) (snd gc)) (layout_classes L)) cs
+                    | None => false end) layouts = true.
+Proof. exact layout_classes_fit_comparisons. Qed.
+Print Assumptions unpacked_field_kinds_fit_the_comparisons.
+
+Theorem unpacked_kinds_all_have_comparisons :
+  forallb (fun k => match find_dup dups k with
+                    | Some cs => no_const_false cs || String.eqb k "OPT"
+                    | None => false end)
+          ("RFC3597"%string :: map (fun p => base_kind (snd p)) type_to_rr) = true.
+Proof. exact unpacked_kinds_have_comparisons. Qed.
+Print Assumptions unpacked_kinds_all_have_comparisons.
+
+(* whatever the generated unpack() of a type returns (also after an early exit
+   on exhausted RDATA, which leaves the later fields absent) is typed for the
+   comparison list of that type *)
+Theorem unpacked_rdata_is_typed :
+  forall (k : string) (L : tlayout) (cs : list dcmp) (msg : bytes) (off : N) (v : rdata) (off' : N),
+    find_layout layouts k = Some L -> find_dup dups k = Some cs ->
+    unpack_fields (tl_unpack L) [] msg off = Ok (v, off') -> typed_for cs v = true.
+Proof. exact unpacked_rdata_typed. Qed.
+Print Assumptions unpacked_rdata_is_typed.
+
+(* every record UnpackRR returns, of any type but OPT, is a duplicate of itself *)
+Theorem unpacked_record_is_its_own_duplicate :
+  forall (msg : bytes) (off : N) (r : rr) (off' : N),
+    unpack_rr msg off = Ok (r, off') -> rr_kind r <> "OPT"%string -> is_duplicate r r = Ok true.
+Proof. exact unpacked_rr_is_own_duplicate. Qed.
+Print Assumptions unpacked_record_is_its_own_duplicate.
+
+(* two records from the wire are duplicates exactly when header (owner up to
+   case) and every field of the wire layout agree (names up to case) *)
+Theorem unpacked_records_duplicate_iff_all_fields_agree :
+  forall (m1 : bytes) (o1 : N) (r1 : rr) (o1' : N) (m2 : bytes) (o2 : N) (r2 : rr) (o2' : N) (L : tlayout),
+    unpack_rr m1 o1 = Ok (r1, o1') -> unpack_rr m2 o2 = Ok (r2, o2') ->
+    rr_kind r1 <> "OPT"%string -> find_layout layouts (rr_kind r1) = Some L ->
+    (is_duplicate r1 r2 = Ok true <->
+     rr_class r1 = rr_class r2 /\ rr_type r1 = rr_type r2 /\ rr_kind r1 = rr_kind r2 /\
+     lower_bytes (rr_name r1) = lower_bytes (rr_name r2) /\
+     forall p, In p (tl_pack L) -> field_agree p (rr_data r1) (rr_data r2)).
+Proof. exact unpacked_rr_duplicate_iff. Qed.
+Print Assumptions unpacked_records_duplicate_iff_all_fields_agree.
+
+(* non-vacuity: two MX records on the wire (a. 300 IN MX 10 b.  /  A. 60 IN MX 10 B.) *)
+Definition mx_wire_1 : bytes := [1;97;0; 0;15; 0;1; 0;0;1;44; 0;5; 0;10; 1;98;0].
+Definition mx_wire_2 : bytes := [1;65;0; 0;15; 0;1; 0;0;0;60; 0;5; 0;10; 1;66;0].
+Example mx_from_the_wire :
+  exists r1 r2 L,
+    unpack_rr mx_wire_1 0 = Ok (r1, 18) /\ unpack_rr mx_wire_2 0 = Ok (r2, 18) /\
+    rr_kind r1 = "MX"%string /\ find_layout layouts (rr_kind r1) = Some L /\
+    tl_pack L = [("Preference"%string, K_u16); ("Mx"%string, K_name true)] /\
+    rr_data r1 = [("Preference"%string, V_n 10); ("Mx"%string, V_s [98; 46])] /\
+    rr_data r2 = [("Preference"%string, V_n 10); ("Mx"%string, V_s [66; 46])] /\
+    typed_for (layout_cmps L) (rr_data r1) = true /\
+    is_duplicate r1 r2 = Ok true.
+Proof. do 3 eexists. vm_compute. repeat split. Qed.
+
+(* MODEL GAP and FINDING.  The generated unpack() returns early on exhausted
+   RDATA and leaves the remaining struct fields at their zero value; the model
+   leaves them absent, and all statements above read "agree" on model values,
+   where an absent field differs from a present zero value (same_len, vget
+   equality).  Witness, records from the wire: CAA with RDATA 00 and CAA with
+   RDATA 00 00.  The model answers not duplicates; the Go library (run on these
+   octets) answers IsDuplicate = true: both decode to CAA(Flag 0, Tag empty,
+   Value empty).  So (a) the model is stricter than the code on truncated RDATA,
+   and (b) the code calls two records duplicates whose RDATA octets differ,
+   against the wire clause of C20. *)
+Theorem is_duplicate_absent_field_is_zero_value_refuted :
+  match unpack_rr caa_wire_short 0, unpack_rr caa_wire_empty_tag 0 with
+  | Ok (r1, _), Ok (r2, _) =>
+    rr_kind r1 = "CAA"%string /\ rr_kind r2 = "CAA"%string /\
+    rr_data r1 = [("Flag"%string, V_n 0)] /\
+    rr_data r2 = [("Flag"%string, V_n 0); ("Tag"%string, V_s [])] /\
+    is_duplicate r1 r2 = Ok false /\ is_duplicate r1 r1 = Ok true /\ is_duplicate r2 r2 = Ok true
+  | _, _ => False
+  end.
+Proof. exact absent_field_vs_zero_value_witness. Qed.
+Print Assumptions is_duplicate_absent_field_is_zero_value_refuted.
